@@ -325,6 +325,11 @@ func (fc *FnCtx) selectPath(st *State, base Term, baseT types.Type, index []int,
 
 func (fc *FnCtx) safeNonNil(st *State, ref Term, pos token.Pos, what string) {
 	if !fc.safe {
+		// outside safe mode a nil dereference is a panic: execution does not continue past it
+		// (sound for postconditions and sink assertions, which speak about executions that get there)
+		if st != nil && ref.S != "0" && fc.qdepth == 0 && fc.inContract == 0 {
+			fc.assume(st, boolT(fmt.Sprintf("(not (= %s 0))", ref.S)))
+		}
 		return
 	}
 	if ref.S == "0" {
